@@ -3,11 +3,13 @@
 package c11
 
 import (
+	"crypto/sha256"
 	"encoding/binary"
 	"encoding/hex"
 	"fmt"
 	"math/big"
 	"os"
+	"strconv"
 	"testing"
 
 	"github.com/btcsuite/btcd/btcutil/hdkeychain"
@@ -34,6 +36,11 @@ func genMessage() *rapid.Generator[[]byte] {
 	return rapid.OneOf(
 		rapid.SliceOfN(rapid.Byte(), 0, 64),
 		rapid.SliceOfN(rapid.Byte(), 0, 1024),
+		// uniformly drawn length up to 2 KiB (rapid's slice sizes lean towards short)
+		rapid.Custom(func(t *rapid.T) []byte {
+			n := rapid.IntRange(0, 2048).Draw(t, "len")
+			return rapid.SliceOfN(rapid.Byte(), n, n).Draw(t, "bytes")
+		}),
 		// 32-byte big-endian small integers (the spec vector family)
 		rapid.Custom(func(t *rapid.T) []byte {
 			b := make([]byte, 32)
@@ -103,6 +110,36 @@ func TestH2CSweep(t *testing.T) {
 		rec.Class("h2c_ctr=" + fmt.Sprint(min(int(ctr), 6)))
 	}
 	rec.Note("h2c sweep of %d integers reached counter %d", n, maxCtr)
+	// every message length around the sizes that matter (block boundaries of SHA-256, the 512-byte secret limit, and
+	// well beyond): two fillers per length, seeded
+	seed, _ := strconv.ParseUint(os.Getenv("VERIF_SEED"), 10, 64)
+	maxLen := 1300
+	if os.Getenv("VERIF_TIER") == "thorough" {
+		maxLen = 9000
+	}
+	for l := 0; l <= maxLen; l++ {
+		for variant := 0; variant < 2; variant++ {
+			msg := make([]byte, l)
+			h := sha256.Sum256([]byte(fmt.Sprintf("c11 length sweep %d %d %d", seed, l, variant)))
+			for i := range msg {
+				if variant == 0 {
+					msg[i] = h[i%32] ^ byte(i>>5)
+				} else {
+					msg[i] = "0123456789abcdef"[int(h[i%32]^byte(i>>5))%16]
+				}
+			}
+			want, _, werr := ref.HashToCurve(msg)
+			got, err := crypto.HashToCurve(msg)
+			rec.Eval()
+			if (werr != nil) != (err != nil) || (err == nil && hex.EncodeToString(got.SerializeCompressed()) != want.Hex()) {
+				t.Fatalf("VIOLATION C11|h2c_differs_from_reference|length_sweep: message of %d bytes (%x...): impl %v err %v, reference %s err %v", l, msg[:min(l, 16)], got, err, want.Hex(), werr)
+			}
+			if l > 64 {
+				rec.NonTrivial(fmt.Sprintf("h2c_len|%d|%d", l, variant))
+			}
+		}
+		rec.Class(fmt.Sprintf("h2c_length_sweep_%d..", (l/512)*512))
+	}
 }
 
 // ---------------------------------------------------------------- keyset id
